@@ -7,7 +7,7 @@
              the other variants re-enable one recorded defect each (see *_refuted below). *)
 From Coq Require Import Floats ZArith String List Bool.
 From PV.gen Require Import Gen_tables_params.
-From PV Require Import Model_config Proofs_config.
+From PV Require Import Model_config Proofs_config Model_config_session Proofs_config_session.
 Import ListNotations.
 Open Scope string_scope.
 
@@ -248,3 +248,112 @@ Example C19_fault_examples :
   unknown_phase (VStr "quartz") /\ unknown_phase (VInt 5) /\ unknown_fabric (VStr "F") /\
   bad_output_name [0%Z] "garnet" /\ bad_output_name [0%Z] "enstatite".
 Proof. exact fault_examples. Qed.
+
+Open Scope list_scope.
+
+(* ---- call histories: results are live objects that the caller edits (Model_config_session) ------------- *)
+(* `as_source` is the source as it is; s any well-formed state of the process (wf: no container is part of two
+   live objects); h any history of parses, as_dict() calls on new and on kept records, attribute reads, edits of
+   containers of earlier results, reads. *)
+
+(* the state of a fresh process is well-formed and every history keeps it so *)
+Theorem C19_session_states_wellformed : wf init /\ forall h s, wf s -> wf (state_after as_source s h).
+Proof. exact (conj init_wf session_wf). Qed.
+
+(* every parse returns the one-call result of its file, every as_dict() / attribute read the table of the
+   record's class -- whatever was parsed, returned or edited before *)
+Theorem C19_session_calls_pure : forall h s,
+  flat_map call_out (run as_source s h) = pure_run (inst_classes s) h.
+Proof. exact session_calls_pure. Qed.
+
+(* deleting every edit from a history changes the result of no call *)
+Theorem C19_session_edits_invisible : forall h s,
+  flat_map call_out (run as_source s h) = flat_map call_out (run as_source s (filter (fun o => negb (is_edit o)) h)).
+Proof. exact session_edits_invisible. Qed.
+
+(* parse, anything, parse the same file again: twice the one-call result *)
+Theorem C19_session_reparse : forall toml h s, exists mid,
+  flat_map call_out (run as_source s (SParse toml :: h ++ [SParse toml])) =
+  inl (parse_config v_fixed toml) :: mid ++ [inl (parse_config v_fixed toml)].
+Proof. exact session_reparse. Qed.
+
+(* rec.as_dict(), anything, rec.as_dict() again on a record the caller keeps: twice the class's table *)
+Theorem C19_session_asdict_again : forall i h s, i < length (s_instances s) -> exists mid,
+  flat_map call_out (run as_source s (SAsDictOf i :: h ++ [SAsDictOf i])) =
+  inr (asdict_of (inst_class s i)) :: mid ++ [inr (asdict_of (inst_class s i))].
+Proof. exact session_asdict_again. Qed.
+
+(* what a parse returns consists of new objects only: pairwise distinct, none of them a module-level
+   container, a record's slot or part of an earlier result *)
+Theorem C19_session_parse_fresh : forall s toml cfg,
+  wf s -> parse_config v_fixed toml = COk cfg ->
+  exists x, s_results (fst (step as_source s (SParse toml))) = s_results s ++ [x] /\
+            snd (step as_source s (SParse toml)) = [OParse (COk cfg) (length (labels x))] /\
+            erase x = config_value cfg /\ NoDup (labels x) /\ fresh_in s x.
+Proof. exact session_parse_fresh. Qed.
+
+Theorem C19_session_asdict_fresh : forall s c,
+  wf s ->
+  exists x, s_results (fst (step as_source s (SAsDict c))) = s_results s ++ [x] /\
+            snd (step as_source s (SAsDict c)) = [OAsDict (asdict_of c) (length (labels x))] /\
+            erase x = VTable (asdict_of c) /\ NoDup (labels x) /\ fresh_in s x.
+Proof. exact session_asdict_fresh. Qed.
+
+Theorem C19_session_asdict_of_fresh : forall s i,
+  wf s ->
+  exists x, s_results (fst (step as_source s (SAsDictOf i))) = s_results s ++ [x] /\
+            s_instances (fst (step as_source s (SAsDictOf i))) = s_instances s /\
+            snd (step as_source s (SAsDictOf i)) = [OAsDict (asdict_of (inst_class s i)) (length (labels x))] /\
+            erase x = VTable (asdict_of (inst_class s i)) /\ NoDup (labels x) /\ fresh_in s x.
+Proof. exact session_asdict_of_fresh. Qed.
+
+(* an edit made through one result changes no other result, no record, no module-level container *)
+Theorem C19_session_mutation_local : forall s r path m,
+  wf s ->
+  let s' := fst (step as_source s (SMutate r path m)) in
+  s_defaults s' = s_defaults s /\ s_instances s' = s_instances s /\
+  length (s_results s') = length (s_results s) /\
+  forall r', r' <> r -> result s' r' = result s r'.
+Proof. exact session_mutation_local. Qed.
+
+(* a result that is not edited itself keeps contents and identity through any history *)
+Theorem C19_session_untouched_result : forall h s r,
+  wf s -> r < length (s_results s) -> forallb (fun o => negb (edits r o)) h = true ->
+  result (state_after as_source s h) r = result s r.
+Proof. exact session_untouched_result. Qed.
+
+(* the session semantics can express a dependence on the history: an implementation that fills omitted
+   parameters from a module-level table handed out by reference ... *)
+Theorem C19_session_shared_defaults_refuted :
+  map (param_of "number_of_grains") (flat_map call_out (run shared_defaults init trial_history)) =
+    [Some (VInt 3500); Some (VInt 500)] /\
+  map (param_of "number_of_grains") (pure_run [] trial_history) = [Some (VInt 3500); Some (VInt 3500)] /\
+  flat_map call_out (run shared_defaults init trial_history) <> pure_run [] trial_history.
+Proof. exact shared_defaults_refuted. Qed.
+
+(* ... and one that builds a record's dictionary once per instance *)
+Theorem C19_session_cached_asdict_refuted :
+  map (param_of "gbm_mobility") (flat_map call_out (run cached_asdict init asdict_history)) =
+    [Some (VInt 125); Some (VInt 10); Some (VInt 125); Some (VInt 125)] /\
+  map (param_of "gbm_mobility") (pure_run [] asdict_history) =
+    [Some (VInt 125); Some (VInt 125); Some (VInt 125); Some (VInt 125)].
+Proof. exact cached_asdict_refuted. Qed.
+
+(* non-vacuity: in the source as it is the same two histories give the documented values every time; the edit
+   is visible in the edited result (edits are not no-ops of the model) and in no other *)
+Example C19_session_example :
+  map (param_of "number_of_grains") (flat_map call_out (run as_source init trial_history)) =
+    [Some (VInt 3500); Some (VInt 3500)] /\
+  map (param_of "gbm_mobility") (flat_map call_out (run as_source init asdict_history)) =
+    [Some (VInt 125); Some (VInt 125); Some (VInt 125); Some (VInt 125)] /\
+  (exists v1 v2, run as_source init trial_history =
+                 [OParse (parse_config v_fixed minimal_toml) 7; OParse (parse_config v_fixed minimal_toml) 7; ORead v1; ORead v2] /\
+     match v1, v2 with
+     | VTable t1, VTable t2 =>
+         match get "parameters" t1, get "parameters" t2 with
+         | Some (VTable p1), Some (VTable p2) => get "number_of_grains" p1 = Some (VInt 500) /\ get "number_of_grains" p2 = Some (VInt 3500)
+         | _, _ => False
+         end
+     | _, _ => False
+     end).
+Proof. exact session_example. Qed.
